@@ -17,7 +17,7 @@ from pathlib import Path
 from cfdpsim.runner import from_world
 from cfdpsim.tape import Tape
 from cfdpsim.world import ACK, UNACK, Cfg, LinkCfg, Violation, World, pdu_hdr, tid_t
-from props.monitors import Monitor
+from props.monitors import Monitor, build_msgs
 
 from spacepackets.cfdp import ConditionCode
 from spacepackets.cfdp.defs import FaultHandlerCode
@@ -205,7 +205,9 @@ def run_history(w, t, hist_log):
                 for cc in (ConditionCode.POSITIVE_ACK_LIMIT_REACHED, ConditionCode.NAK_LIMIT_REACHED, ConditionCode.CHECK_LIMIT_REACHED,
                            ConditionCode.FILE_CHECKSUM_FAILURE, ConditionCode.CANCEL_REQUEST_RECEIVED):
                     ent.fh.set_handler(cc, FaultHandlerCode.ABANDON_TRANSACTION)
-        req = PutRequest(b.eid, Path(f"src/h{i}.bin"), Path(f"dst/h{i}.bin"), mode, closure)
+        # earlier transactions carry message lists (originating id, proxy messages) that T does not
+        hm, _ = build_msgs(t.weighted([3, 1, 2, 1, 1, 1, 1], "history msgs"))
+        req = PutRequest(b.eid, Path(f"src/h{i}.bin"), Path(f"dst/h{i}.bin"), mode, closure, msgs_to_user=hm)
         rec = w.call(a, "src", "put", arg=req)
         if rec.ret is not True:
             hist_log.append("put-refused")
